@@ -50,7 +50,7 @@ def run_batch(ck: Check, n_hist: int, length: int, kinds=None, tag=''):
         res = [circ_sim.worker(j) for j in jobs]
     hists = [h for chunk_ in res for h in chunk_]
     all_lines = []
-    for i, lines, impl, calls, internal in hists:
+    for i, lines, impl, calls, internal, ubad in hists:
         if lines is None:
             raise RuntimeError(f'harness failure in history {i}: {internal}')
         all_lines += lines
@@ -59,10 +59,10 @@ def run_batch(ck: Check, n_hist: int, length: int, kinds=None, tag=''):
         raise RuntimeError('driver output length mismatch')
     pos = 0
     out = []
-    for i, lines, impl, calls, internal in hists:
+    for i, lines, impl, calls, internal, ubad in hists:
         out.append(dict(i=i, seed=circ_sim.seed_of(base, i), lines=lines,
                         impl=impl, model=outs[pos:pos + len(lines)],
-                        calls=calls, internal=internal))
+                        calls=calls, internal=internal, ubad=ubad))
         pos += len(lines)
     return out
 
@@ -78,6 +78,12 @@ def classify(ck: Check, hists, which: str):
         ck.bump('history_length', str(min(ncalls // 5 * 5, 40)))
         for k in kinds:
             ck.bump('calls_by_kind', k)
+        if which == 'C04' and h.get('ubad'):
+            ck.violation(
+                'unitary-changed:' + h['ubad'][0].split('(')[0],
+                f'{h["ubad"][0]}: {h["ubad"][1]} (numeric oracle on the real '
+                'circuit)', {'history_seed': h['seed'], 'calls': h['calls'],
+                             'lines': h['lines']})
         for j, (line, impl, model) in enumerate(
                 zip(h['lines'], h['impl'], h['model'])):
             if line.startswith('defblock'):
